@@ -14,10 +14,15 @@ with open(os.path.join(VERIF, "spec", "infeasible.json")) as fh:
     INFEASIBLE = json.load(fh)
 
 
-def _frozen(fi, name):
+def _frozen(fi, name, nid=None):
+    """A frozen infeasible-path exception applies when the read is controlled (true arm) by the
+    guard recorded for it, matched on the canonical, rename-proof text of the test."""
     for e in INFEASIBLE["DA"]:
-        if e["function"] == fi.fq and e["name"] == name:
-            return e["reason"]
+        if e["function"] != fi.fq or nid is None:
+            continue
+        for test, pol, gid in guards_of(fi, nid):
+            if pol and e["guard_contains"] in show(fi.flow.canon(test, gid)):
+                return e["reason"]
     return None
 
 
@@ -80,7 +85,7 @@ def da_locals(repo, functions, oid="DA.locals"):
         fi = repo.function(fq)
         seen = {}
         for name, node, nid in fi.flow.possibly_unbound():
-            reason = _frozen(fi, name) or _loop_ran_proof(fi, name, node, nid)
+            reason = _frozen(fi, name, nid) or _loop_ran_proof(fi, name, node, nid)
             key = (name, reason is not None)
             if key in seen and reason is not None:
                 continue
